@@ -568,7 +568,13 @@ type Chan[T any] struct {
 	taken  uint64
 }
 
-func MakeChan[T any](n int) *Chan[T] { return &Chan[T]{real: make(chan T, n), capa: n} }
+type integer interface {
+	~int | ~int8 | ~int16 | ~int32 | ~int64 | ~uint | ~uint8 | ~uint16 | ~uint32 | ~uint64 | ~uintptr
+}
+
+func MakeChan[T any, N integer](n N) *Chan[T] {
+	return &Chan[T]{real: make(chan T, int(n)), capa: int(n)}
+}
 
 func (c *Chan[T]) Send(v T) {
 	if !isActive() {
